@@ -274,6 +274,28 @@ def run(chk):
                             okr = okr and all(sym.is_zero(c) for c in mir.add(plain_e.scale(found[a] * (-1) ** (a + 1)), -1).t.values())
                         chk.ob("C14-R5", "%s right-hand side rows are mirror images under reversal (r_mirrored = R S r)" % cls, okr, loc(B.fn), "", construct="%s/mirror/rhs" % cls)
             history.for_each_outcome(chk, per_class)
+    # raw-storage views of the coefficient matrix in the energy / energy-gradient functions, in *every* instantiated DIM
+    # (the storage order depends on it): a view that reaches a c_0 row brings the absolute waypoint positions in
+    from .. import rawview
+    for short in SPLINES:
+        for cls in full_classes(F, short, ("update", "propagateGrad")):
+            M_ = spline_model(F, cls) if cls in {c_ for c_ in alg_classes(F, short, ("update", "propagateGrad"))} else None
+            rec_ = F.record(cls)
+            st_ = {s_["name"]: s_.get("v") for s_ in rec_["statics"]}
+            if "COEFF_NUM" not in st_:
+                continue
+            K_ = int(st_["COEFF_NUM"])
+            for gname in ("getEnergy", "getEnergyGradTimes", "getEnergyGradInnerPoints", "getEnergyGradBoundary", "getEnergyPartialGradByTimes", "getEnergyPartialGradByCoeffs"):
+                for g in F.funcs(cls, gname):
+                    if not any(rawview.is_map_ctor(n) or rawview.is_eigen_data_call(n) for n in walk(g.get("body"))):
+                        continue
+                    vs = rawview.resolve_views(F, g)       # not resolvable: analysis-broken
+                    for (_n, obj, a_, b_, rows_) in vs:
+                        if "coeff" not in obj:
+                            continue
+                        residues = {(a_ + b_ * r_) % K_ for r_ in range(K_)}
+                        chk.ob("C14-R2", "%s::%s raw view of the coefficient rows never reaches a c_0 row" % (cls, gname), 0 not in residues, loc(g, _n),
+                               "view rows %d + %d r: residues modulo %d = %s" % (a_, b_, K_, sorted(residues)), construct="%s/translation/%s/raw-view" % (cls, gname))
     chk.floor("C14-R2", 30)
     chk.floor("C14-R4", 25)
     chk.floor("C14-R5", 6)
